@@ -1494,6 +1494,10 @@ class Oracles:
                        lambda: env.scenario.host_value_bounds,
                        lambda: env.action_space.sample(),
                        env.generate_initial_state,
+                       lambda: _random_initial(env),
+                       lambda: env.generate_initial_state(),
+                       lambda: __import__("pickle").loads(
+                           __import__("pickle").dumps(env.last_obs)),
                        lambda: __import__("copy").deepcopy(
                            env.current_state),
                        lambda: __import__("copy").deepcopy(env.scenario)):
@@ -1524,6 +1528,16 @@ class Oracles:
             o = env.last_obs
             arr = o.numpy_flat() if sim.flat_obs else o.numpy()
             self._c10_obs(arr)
+
+
+def _random_initial(env):
+    """Public helper that draws from numpy's global generator: called with
+    the generator's state put back afterwards."""
+    keep = np.random.get_state()
+    try:
+        return env.generate_random_initial_state()
+    finally:
+        np.random.set_state(keep)
 
 
 # --------------------------------------------------------------------------
